@@ -129,6 +129,59 @@ def bursts(rng, n):
     return out
 
 
+def completion_instant(rng, n):
+    """Same-key calls landing in the very loop iterations in which an earlier request completes (between the
+    future being resolved, its done-callbacks and the callers waking up), followed by another same-key call
+    within batch_timeout."""
+    out = []
+    for _ in range(n):
+        bt = BT
+        R = rng.choice([0.0, 0.0, 2.0])
+        opts = {'max_batch_size': rng.choice([2, 3]), 'max_concurrent_batches': rng.choice([1, 2]), 'batch_timeout': bt,
+                'retention_timeout': R}
+        bd = rng.choice([0.0, 1.0, 2.0])
+        done = bt + bd                     # the first request (alone in its batch) completes here
+        calls = [{'i': 1, 'at': 0.0, 'arg': 1}]
+        i = 1
+        for k in sorted(rng.sample(range(0, 6), rng.randint(1, 3))):
+            i += 1
+            calls.append({'i': i, 'at': done + (R if rng.random() < 0.3 else 0.0), 'arg': rng.choice([1, 1, 2]), 'start_iters': k})
+        for _ in range(rng.randint(1, 2)):
+            i += 1
+            calls.append({'i': i, 'at': done + rng.choice([0.5, 1.0, bt - 1.0]), 'arg': rng.choice([1, 1, 2])})
+        sc = {'form': 'class', 'opts': opts, 'calls': calls, 'batch_dur': bd, 'order': 'fwd'}
+        sc['end'] = end_time(calls, opts, sc) + 10
+        out.append(sc)
+    return out
+
+
+def trickle_burst(rng, n):
+    """One call, then calls trickling in alone within batch_timeout, then a burst: the batch must stop at
+    max_batch_size however the items arrived."""
+    out = []
+    for _ in range(n):
+        bt = BT
+        mb = rng.choice([2, 3, 4, 5])
+        opts = {'max_batch_size': mb, 'max_concurrent_batches': rng.choice([1, 2, 3]), 'batch_timeout': bt,
+                'retention_timeout': 0.0}
+        calls = [{'i': 1, 'at': 0.0, 'arg': 1}]
+        t = 0.0
+        i = 1
+        for _ in range(rng.randint(1, mb - 1)):
+            t += rng.choice([1.0, 2.0, bt - 1.0])
+            i += 1
+            calls.append({'i': i, 'at': t, 'arg': i})
+        t += rng.choice([1.0, bt - 1.0])
+        for _ in range(rng.randint(mb - 1, mb + 2)):
+            i += 1
+            calls.append({'i': i, 'at': t, 'arg': i})
+        sc = {'form': rng.choice(['class', 'deco_direct', 'deco_options']), 'opts': opts, 'calls': calls,
+              'batch_dur': rng.choice([0.0, 1.0]), 'order': 'fwd'}
+        sc['end'] = end_time(calls, opts, sc)
+        out.append(sc)
+    return out
+
+
 def c10_grid(tier):
     """Exhaustive arrival grids for distinct keys (sizes, concurrency, durations)."""
     out = []
@@ -201,6 +254,7 @@ def run(ctx):
 
     if ctx.prop == 'C04':
         go(gen(rng, 3000 if q else 50000, 6 if q else 10), 'programs')
+        go(completion_instant(rng, 500 if q else 8000), 'completion_instant')
     elif ctx.prop == 'C09':
         go(gen(rng, 3000 if q else 50000, 6 if q else 8, cancels=True), 'programs_with_cancels')
         go(gen(rng, 800 if q else 10000, 5, cancels=True, behaviours=False, keys=2), 'cancels_shared_keys')
@@ -216,8 +270,10 @@ def run(ctx):
             sc['end'] = end_time(sc['calls'], sc['opts'], sc)
         go(fails, 'raising_batches')
         go(bursts(rng, 300 if q else 5000), 'bursts')
+        go(trickle_burst(rng, 400 if q else 6000), 'trickle_burst')
     else:
         go(c11_grid(ctx.tier), 'retention_grid')
+        go(completion_instant(rng, 500 if q else 8000), 'completion_instant')
         go(gen(rng, 1500 if q else 30000, 7 if q else 10, behaviours=False, keys=3), 'programs')
     # implementation conformance: a sample of the recorded executions against the timed model itself
     batchermodel.conformance(ctx, executed, limit=40 if q else 400)
